@@ -18,25 +18,43 @@ def check(F, rep, tier):
         fns = [F.fns[p] for p in cg.closure([fs[0].path], generic=False) if p in F.fns and (("semver::from_zerv" in p) if tyname == "SemVer" else ("pep440::from_zerv" in p))]
         rep.fn_seen(*fns)
         n = 0
-        for g in fns:
-            for bi, t in g.calls():
-                if not mir.call_matches(t, (parsers.PARSE,)): continue
-                ty = (t[1].get("targs") or ["?"])[0]
-                if ty not in INT_W: continue
-                n += 1
-                site = "%s bb%d line %s" % (g.where(), bi, g.blocks[bi]["line"])
-                key = "%s#%d" % (g.path.replace("crate::", ""), sum(1 for b2, t2 in g.calls() if b2 < bi and mir.call_matches(t2, (parsers.PARSE,))))
-                if tyname == "SemVer":
-                    # values are u64 in Zerv and in SemVer: the parse type must be u64
-                    if INT_W[ty] == 64: rep.ok("R07.2", "SemVer rendering parses component text as %s (field width)" % ty, sample=site, nontrivial_key=key)
-                    else: rep.bad("R07.2", "narrowing-parse:" + key, "SemVer rendering parses a 64-bit component value as %s: larger numbers change position or kind" % ty, site)
-                else:
-                    # Zerv numbers are u64, PEP 440 fields u32: a failing parse must be able to refuse, but From cannot fail
-                    src = panics.okey(g, t[2][0])
-                    kept = any((mir.callee(t2) or "").endswith("LocalSegment::try_new_str") and src in " ".join(panics.okey(g, a) for a in t2[2]) or ((mir.callee(t2) or "").endswith("LocalSegment::try_new_str") and any(src.split("|")[0] in x for x in [" ".join(sorted(mir.field_sources(F, g, t2[2][0]) | {panics.okey(g, t2[2][0])}))])) for b2, t2 in g.calls())
-                    if kept or any((mir.callee(t2) or "").endswith("LocalSegment::try_new_str") for b2, t2 in g.calls()):
-                        rep.ok("R07.3", "a number too large for u32 is kept verbatim as a text segment", sample=site, nontrivial_key=key); continue
-                    rep.bad("R07.3", "silent-narrowing:" + key, "a u64 Zerv number is parsed as %s inside the infallible From<Zerv> for PEP440: a value above u32::MAX cannot be refused and is silently dropped, replaced or moved to the local segment" % ty, site)
+        # the conversion with its local helpers spliced in: every parse is judged where its value ends up (the field it is
+        # written to), so extracting / merging helpers changes neither the instances nor their keys
+        f = mir.inlined(F, fs[0], depth=6, ok=lambda F_, caller, cp, g: g is not None and g.kind != "closure" and (("semver::from_zerv" in cp) if tyname == "SemVer" else ("pep440::from_zerv" in cp)))
+        seen_keys = {}
+        for bi, t in f.calls():
+            if not mir.call_matches(t, (parsers.PARSE,)): continue
+            ty = (t[1].get("targs") or ["?"])[0]
+            if ty not in INT_W: continue
+            n += 1
+            home = (f.blocks[bi].get("from") or fs[0].path).replace("crate::", "")
+            site = "%s (in %s) bb%d line %s" % (f.where(), home.rsplit("::", 1)[-1], bi, f.blocks[bi]["line"])
+            sinks = set()
+            for sk in mir.forward_sinks(f, t[3][0], limit=400):
+                if sk[0] == "write": sinks.add(sk[1][-1])
+                elif sk[0] == "aggfield": sinks.add(sk[2])
+                elif sk[0] == "callarg" and (sk[1] or "").endswith("Vec::<T, A>::push"):
+                    for o in mir.trace_op(f, f.blocks[sk[3]]["t"][2][0]):
+                        if o.fields(): sinks.add(o.fields()[-1])
+                    for o in mir.trace_op(f, f.blocks[sk[3]]["t"][2][0], transparent=()):
+                        if o.kind == "call" and (mir.callee(f.blocks[o.data]["t"]) or "").endswith("get_or_insert_with"):
+                            for o2 in mir.trace_op(f, f.blocks[o.data]["t"][2][0], transparent=()):
+                                if o2.fields(): sinks.add(o2.fields()[-1])
+            sink = "+".join(sorted(x for x in sinks if not x.isdigit())) or "unnamed"
+            key = "%s.%s" % (tyname, sink)
+            seen_keys[key] = seen_keys.get(key, 0) + 1
+            if tyname == "SemVer":
+                # values are u64 in Zerv and in SemVer: the parse type must be u64
+                if INT_W[ty] == 64: rep.ok("R07.2", "SemVer rendering parses component text as %s (field width) -> %s" % (ty, sink), sample=site, nontrivial_key=key + str(bi))
+                else: rep.bad("R07.2", "narrowing-parse:" + key, "SemVer rendering parses a 64-bit component value as %s: larger numbers change position or kind" % ty, site)
+            else:
+                # Zerv numbers are u64, PEP 440 fields u32: a failing parse must be able to refuse, but From cannot fail.
+                # Accepted: the text is kept verbatim as a local text segment when it does not fit (try_new_str on the failure side)
+                kept = any((mir.callee(t2) or "").endswith("LocalSegment::try_new_str") and (f.blocks[b2].get("from") or fs[0].path) == (f.blocks[bi].get("from") or fs[0].path) for b2, t2 in f.calls())
+                if kept:
+                    rep.ok("R07.3", "a number too large for u32 is kept verbatim as a text segment", sample=site, nontrivial_key=key + str(bi)); continue
+                if seen_keys[key] > 1: key2 = key      # the same sink reached by several (inlined) parse sites: one finding per sink
+                rep.bad("R07.3", "silent-narrowing:" + key, "a u64 Zerv number is parsed as %s inside the infallible From<Zerv> for PEP440 and written to %s: a value above u32::MAX cannot be refused and is silently dropped, replaced or moved to the local segment" % (ty, sink), site)
         rep.floor("R07.2", "integer parses on the %s rendering path" % tyname, n, 4)
     # ---- R07.4 no constant fallback ---------------------------------------------------------------------------------
     for anchor, module in (("<impl std::str::FromStr for crate::version::semver::core::SemVer>::from_str", "crate::version::semver::parser::"),
@@ -57,6 +75,7 @@ def check(F, rep, tier):
     pz = F.fn("crate::version::pep440::to_zerv::<impl crate::version::pep440::core::PEP440>::to_zerv_with_schema")
     if rep.anchor("R07.5", "PEP440::to_zerv_with_schema", pz):
         rep.fn_seen(pz, *F.children(pz.path))
+        pz = mir.inlined(F, pz, depth=4, keep=("pep440_default", "push_core", "push_build"))       # zerv_vars() / release_part(i) style helpers are seen through
         wires = {}
         for bi, si, st in pz.stmts():
             if st[0] == "=" and st[2][0] == "agg" and st[2][1].get("adt", "").endswith("vars::ZervVars"):
@@ -85,6 +104,7 @@ def check(F, rep, tier):
     sz = F.fn("crate::version::semver::to_zerv::<impl crate::version::semver::core::SemVer>::to_zerv_with_schema")
     if rep.anchor("R07.5", "SemVer::to_zerv_with_schema", sz):
         rep.fn_seen(sz)
+        sz = mir.inlined(F, sz, depth=4)
         wires = {}
         for bi, si, st in sz.stmts():
             if st[0] == "=" and st[2][0] == "agg" and st[2][1].get("adt", "").endswith("vars::ZervVars"):
